@@ -159,5 +159,29 @@ claim("C09", "other",
       "(document-level differential only); one known finding (ellipsis at a text-node boundary) shared with C02.",
       "contract-based deductive verification of the rewrite callback (AST->VC + z3); exhaustive short-string idempotence and "
       "document differential as bounded stand-in", "DESIGN.md §3 C09")
-for _p in ["C17", "C18"]:
-    NOT_APPLICABLE[_p] = "check not built yet in this round (planned in DESIGN.md §3); nothing is claimed"
+claim("C17", "proof",
+      "Discharged on the real resolver code: resolve returns a strictly sorted (hence duplicate-free) list (loop invariants "
+      "'every element is in seen' and an injective position map, list.sort as a sorted permutation); _walk_directory yields a "
+      "file iff it is not a symbolic link, matches an include pattern, is within the size limit, is not git-ignored and not "
+      "matched by the tool ignore file (path relative to the walk root), prunes into the very list object os.walk yielded and "
+      "calls os.walk without followlinks; _is_dir_excluded <=> exclude/gitignore/tool-ignore match of name/ or path/; "
+      "_exceeds_max_size (0 = unlimited, strictly larger, unreadable never excludes); cli._resolve_files passes every "
+      "file-discovery option under its own name. Three defects found here were repaired (symlinked files, glob filtering, "
+      ".flowmarkignore path patterns).",
+      "pathspec.match_file / check_file, os.walk (top-down, descends into the names left in dirnames, no symlinked dirs), "
+      "Path.resolve/is_file/stat, list.sort by assumed contracts; _should_include_explicit, _expand_glob and the ignore-file "
+      "loaders are covered only by the bounded reference walk; 'no file is missed / order of listing irrelevant' follows from "
+      "the filter iff plus sortedness and is explored on generated trees.",
+      "contract-based deductive verification: AST->VC generation (loop invariants, ghost position map, generator yield log) + z3; "
+      "bounded comparison with a reference walk on generated trees", "DESIGN.md §3 C17")
+claim("C18", "proof",
+      "Discharged: _gitignored asks each .gitignore about the path relative to that file's own directory (directories with a "
+      "trailing slash) and lets the last matching pattern along the chain root -> leaf decide (loop invariant over a recursive "
+      "decision function), _get_gitignore_chain returns exactly the directories on the path from the walk root to the "
+      "directory that have rules, in order, each with its own spec (ghost depth / index list, counting function for "
+      "completeness) and descends to the directory itself; _walk_directory and _is_dir_excluded consult the chain only when "
+      "respect_gitignore is set. The defect that made the original code disagree with git (basename matching, any()) was repaired.",
+      "gitignore pattern semantics are delegated to pathspec.check_file (assumed contract) and compared with git 2.39 "
+      "(`git ls-files -co --exclude-standard`) only in the bounded layer; termination of the descent assumed (finite path).",
+      "contract-based deductive verification: AST->VC generation (loop invariants, ghost state) + z3; git as oracle in the bounded layer",
+      "DESIGN.md §3 C18")
